@@ -95,6 +95,12 @@ CLAIMED = {
          "1-4, 5 modes, applied along every axis) is compared with the fresh build in the exact regime (no prefilter); prefilter, "
          "partition of unity for orders 2-4, resize shapes and corners are checked per case",
          "Rocq proof (Q) + differential correspondence (exact rational regime)"),
+ "C19": ("proof", "Coq theorems: cooccurence counts exactly the ordered in-image pixel pairs at the offset (any dimension/distance, "
+         "through the re-translated fix_offset in ignore mode and the per-label fold theorem); the SURF integral image recurrence is "
+         "the exact 2-D prefix sum for every rectangular input; [fin: P <= 12, all codes] the LBP mapping is the least cyclic rotation, "
+         "idempotent, constant on rotation classes. Haralick formulas, Zernike invariances, LBP histograms and moments are compared "
+         "with independent evaluations of the definitions / the extracted models on the fresh build",
+         "Rocq proof + finite sweep + differential correspondence"),
 }
 NOT_YET = "check not built yet in this round (see DESIGN.md section 8 for the plan)"
 ALL = ["C%02d" % i for i in range(1, 21)]
